@@ -1,3 +1,4 @@
+import Sebuf.Bytes
 /-
 Percent-encoding model: Go `net/url` (`PathEscape`, `PathUnescape`, `QueryEscape`,
 `QueryUnescape`) and JavaScript (`encodeURIComponent`, `decodeURIComponent`), at the byte
@@ -19,8 +20,6 @@ Sources transcribed:
 -/
 namespace Sebuf
 
-/-- A byte string. Each element is meant to be `< 256`. -/
-abbrev Bytes := List Nat
 
 /-! ## Hex digits -/
 
